@@ -751,6 +751,40 @@ func compressTrace(t []int) string {
 
 // C14RaceMain is the body of the free-running pass (cmd/vrace, built with -race):
 // the same bodies on real goroutines, started together, several rounds.
+// c14ColdCombos: pairs of menu bodies (the menu is built without the library) that are started
+// together as the very first library use of a fresh process: anything initialised lazily on first
+// use is initialised by two goroutines at once.
+func c14ColdCombos() [][2]int {
+	return [][2]int{{0, 1}, {0, 0}, {5, 5}, {5, 14}, {12, 12}, {12, 13}, {10, 11}, {15, 15}, {16, 16}, {17, 17}, {15, 0}, {16, 10}, {2, 3}, {6, 7}, {8, 19}}
+}
+
+// C14ColdMain runs cold combination k: both bodies concurrently first, solo afterwards.
+func C14ColdMain(k int) int {
+	m := c14Menu()
+	cb := c14ColdCombos()[k]
+	res := make([][]byte, 2)
+	start := make(chan struct{})
+	done := make(chan int)
+	for i := 0; i < 2; i++ {
+		go func(i int) {
+			<-start
+			res[i] = m[cb[i]].run(func() {})
+			done <- i
+		}(i)
+	}
+	close(start)
+	<-done
+	<-done
+	bad := 0
+	for i := 0; i < 2; i++ {
+		if !bytes.Equal(res[i], m[cb[i]].run(func() {})) {
+			fmt.Printf("RESULT-DIFFERS cold combination %d (bodies %d and %d started together as the first library use of the process) thread=%d\n", k, cb[0], cb[1], i)
+			bad++
+		}
+	}
+	return bad
+}
+
 func C14RaceMain(rounds int) int {
 	bad := 0
 	for _, sc := range c14Scenarios() {
@@ -905,6 +939,31 @@ func runC14(r *core.Run) {
 			r.Violate(core.MkCase("C14", "race", map[string]string{"GOMAXPROCS": procs}), site, "free-running bodies under -race, GOMAXPROCS="+procs, fmt.Sprintf("%d race reports; first frame: %s", races, first), "no data race, results equal solo runs")
 		} else if err != nil {
 			r.CapHit("race pass failed to run: " + err.Error() + " " + firstLine(txt))
+		}
+	}
+	// cold starts: each combination in a fresh process (lazy initialisation on first use)
+	for k := range c14ColdCombos() {
+		cmd := exec.Command(rb, "cold", fmt.Sprint(k))
+		cmd.Env = append(os.Environ(), "GOMAXPROCS=4", "GORACE=halt_on_error=0")
+		out, err := cmd.CombinedOutput()
+		txt := string(out)
+		races := strings.Count(txt, "WARNING: DATA RACE")
+		r.Count("race_pass_cold_starts", 1)
+		if races > 0 || strings.Contains(txt, "RESULT-DIFFERS") {
+			first := ""
+			for _, l := range strings.Split(txt, "\n") {
+				if strings.Contains(l, "github.com/ulikunitz/xz") {
+					first = strings.TrimSpace(l)
+					break
+				}
+			}
+			site := "race pass (cold start) → data race"
+			if races == 0 {
+				site = "race pass (cold start) → result differs"
+			}
+			r.Violate(core.MkCase("C14", "race", map[string]string{"cold": fmt.Sprint(k)}), site, fmt.Sprintf("fresh process: menu bodies %v started together as the first library use", c14ColdCombos()[k]), fmt.Sprintf("%d race reports; first frame: %s", races, first), "no data race, results equal solo runs")
+		} else if err != nil {
+			r.CapHit("cold-start race pass failed to run: " + err.Error() + " " + firstLine(txt))
 		}
 	}
 	r.Assume("limit: preemption inside a library loop between two scheduling points and memory-model effects are outside the cooperative scheduler; unsynchronised accesses are covered by the separate -race pass")
